@@ -1,6 +1,158 @@
-From Coq Require Import QArith List.
+(* C13 -- Trace sets: bases are the textbook polynomials and fit/evaluate are consistent.
+   Property theorems only; each is closed by `exact` and followed by Print Assumptions.
+   Model: C13/Model.v (M = transliteration of trace.py / goddard/math.py over Q; S = closed forms + checkers). *)
+From Coq Require Import Reals QArith Qreals Qround ZArith List Bool.
+Import ListNotations.
 From PV Require Import Lib.WLS C13.LinAlg C13.Model C13.Proofs.
 Open Scope Q_scope.
-Theorem C13_monomial_0 : forall x, monomial 0 x == 1.
-Proof. exact monomial_0. Qed.
-Print Assumptions C13_monomial_0.
+
+(* ---------------------------------------------------------------- bases *)
+(* the Chebyshev recurrence (fchebyshev, fchebyshev_split) IS the textbook definition T_n(cos th) = cos(n th) *)
+Theorem C13_chebyshev_is_cos : forall n q th, Q2R q = cos th -> Q2R (chebyshev_rec n q) = cos (INR n * th).
+Proof. exact chebyshev_is_cos. Qed.
+Print Assumptions C13_chebyshev_is_cos.
+
+(* ... and equals the closed-form coefficient table for every order the property quantifies over (all x) *)
+Theorem C13_chebyshev_closed_form : forall n x, (n <= 12)%nat -> chebyshev_rec n x == chebyshev_explicit n x.
+Proof. exact chebyshev_closed_form. Qed.
+Print Assumptions C13_chebyshev_closed_form.
+
+(* Bonnet's recurrence, value at 1, parity: the defining properties of the Legendre polynomials *)
+Theorem C13_legendre_bonnet : forall n x,
+  Qn (n + 2) * legendre_rec (S (S n)) x == Qn (2 * n + 3) * x * legendre_rec (S n) x - Qn (n + 1) * legendre_rec n x.
+Proof. exact legendre_bonnet. Qed.
+Print Assumptions C13_legendre_bonnet.
+
+Theorem C13_legendre_at_one : forall n, legendre_rec n 1 == 1.
+Proof. exact legendre_at_one. Qed.
+Print Assumptions C13_legendre_at_one.
+
+Theorem C13_legendre_parity : forall n x, legendre_rec n (- x) == psign n * legendre_rec n x.
+Proof. exact legendre_parity. Qed.
+Print Assumptions C13_legendre_parity.
+
+(* P_n(x) = 2^-n sum_k (-1)^k C(n,k) C(2n-2k,n) x^(n-2k) as a polynomial identity, n <= 12 *)
+Theorem C13_legendre_closed_form : forall n x, (n <= 12)%nat -> legendre_rec n x == legendre_explicit n x.
+Proof. exact legendre_closed_form. Qed.
+Print Assumptions C13_legendre_closed_form.
+
+Theorem C13_monomial_is_pow : forall n x, monomial n x == x ^ Z.of_nat n.
+Proof. exact monomial_is_pow. Qed.
+Print Assumptions C13_monomial_is_pow.
+
+(* fchebyshev_split: row 0 is the step (x >= 0), row k+1 is T_k *)
+Theorem C13_chebyshev_split_step : forall x, chebyshev_split 0 x = step01 x.
+Proof. exact chebyshev_split_0. Qed.
+Print Assumptions C13_chebyshev_split_step.
+Theorem C13_chebyshev_split_shifted : forall n x, chebyshev_split (S n) x == chebyshev_rec n x.
+Proof. exact chebyshev_split_S. Qed.
+Print Assumptions C13_chebyshev_split_shifted.
+
+(* the algorithmic model's bases equal the specification's closed forms (what the checkers use), all x, order <= 12 *)
+Theorem C13_basis_is_spec : forall f k x, (k <= 12)%nat -> basis f k x == basis_spec f k x.
+Proof. exact basis_is_spec. Qed.
+Print Assumptions C13_basis_is_spec.
+
+(* ---------------------------------------------------------------- least squares *)
+(* the checked solver only answers with a solution of the system *)
+Theorem C13_solve_checked_sound : forall A b x, solve_checked A b = Some x -> veq (mat_vec A x) b /\ length x = length A.
+Proof. exact solve_checked_sound. Qed.
+Print Assumptions C13_solve_checked_sound.
+
+(* normal equations through the checked solver give the global minimum of the weighted chi-square *)
+Theorem C13_wls_solve_optimal : forall m D x, wf m D -> wls_solve m D = Some x ->
+  length x = m /\ forall z, length z = m -> chi2 D x <= chi2 D z.
+Proof. exact wls_solve_optimal. Qed.
+Print Assumptions C13_wls_solve_optimal.
+
+(* func_fit (>= 2 good points, weights >= 0): the free coefficients minimise the weighted chi-square of
+   (data - fixed part) over all vectors; res = scatter(free solution, inputans) padded with zeros; yfit = basis . res *)
+Theorem C13_func_fit_optimal : forall f x y w ncoeff ia ans ifunc res yfit,
+  func_fit f x y w ncoeff ia ans ifunc = Some (res, yfit) -> (2 <= ngood_of y w)%nat ->
+  (ncoeff <= length ia)%nat -> Forall (fun v => 0 <= v) w ->
+  let ncfit := Nat.min (ngood_of y w) ncoeff in
+  let rows := scale_rows ifunc (map (basis_row f ncfit) x) in
+  let iaf := firstn ncfit ia in
+  let D := free_problem rows w y iaf (fixed_part ans ia) in
+  exists sol, res = scatter 0 iaf sol ans ++ zeros (ncoeff - ncfit) /\
+              yfit = map (fun r => dot r (scatter 0 iaf sol ans)) rows /\
+              length sol = count_true iaf /\
+              forall z, length z = count_true iaf -> chi2 D sol <= chi2 D z.
+Proof. exact func_fit_optimal. Qed.
+Print Assumptions C13_func_fit_optimal.
+
+(* coefficients declared fixed (ia_j = False) keep their prescribed values *)
+Theorem C13_func_fit_fixed_kept : forall f x y w ncoeff ia ans ifunc res yfit j v,
+  func_fit f x y w ncoeff ia ans ifunc = Some (res, yfit) -> (2 <= ngood_of y w)%nat ->
+  (j < Nat.min (ngood_of y w) ncoeff)%nat ->
+  nth_error ia j = Some false -> nth_error ans j = Some v ->
+  nth_error res j = Some v.
+Proof. exact func_fit_fixed_kept. Qed.
+Print Assumptions C13_func_fit_fixed_kept.
+
+(* zero-weight points have no influence: changing y where w == 0 changes nothing in the answer *)
+Theorem C13_func_fit_zero_weight_indep : forall f x y y' w ncoeff ia ans ifunc res yfit,
+  agree3 w y y' -> (2 <= ngood_of y w)%nat ->
+  func_fit f x y w ncoeff ia ans ifunc = Some (res, yfit) ->
+  func_fit f x y' w ncoeff ia ans ifunc = Some (res, yfit).
+Proof. exact func_fit_zero_weight_indep. Qed.
+Print Assumptions C13_func_fit_zero_weight_indep.
+
+(* data that are an exact combination c of the basis: chi2 = 0, every good point reproduced, and c itself is
+   returned when the basis has full column rank on the good points *)
+Theorem C13_func_fit_exact_recovery : forall f x y w ncoeff ia ans ifunc res yfit c,
+  func_fit f x y w ncoeff ia ans ifunc = Some (res, yfit) -> (2 <= ngood_of y w)%nat ->
+  (ncoeff <= length ia)%nat -> Forall (fun v => 0 <= v) w ->
+  let ncfit := Nat.min (ngood_of y w) ncoeff in
+  let rows := scale_rows ifunc (map (basis_row f ncfit) x) in
+  let iaf := firstn ncfit ia in
+  let D := free_problem rows w y iaf (fixed_part ans ia) in
+  length c = count_true iaf ->
+  Forall (fun o => resid c o == 0) D ->
+  exists sol, res = scatter 0 iaf sol ans ++ zeros (ncoeff - ncfit) /\
+              chi2 D sol == 0 /\
+              Forall (fun o => 0 < snd (fst o) -> resid sol o == 0) D /\
+              ((forall z, length z = count_true iaf ->
+                  Forall (fun o => 0 < snd (fst o) -> dot (fst (fst o)) z == 0) D -> forall r, dot r z == 0)
+               -> veq sol c).
+Proof. exact func_fit_exact_recovery. Qed.
+Print Assumptions C13_func_fit_exact_recovery.
+
+(* ---------------------------------------------------------------- trace sets *)
+(* xy (fit xpos ypos) xpos = (xpos, yfit) for every trace, whatever the jump parameters *)
+Theorem C13_traceset_fit_eval_consistent : forall f ncoeff oxmin oxmax j xpos ypos ivar inmask t yfit,
+  ts_fit f ncoeff oxmin oxmax j xpos ypos ivar inmask = Some (t, yfit) ->
+  f <> ChebSplit -> (1 <= ncoeff)%nat ->
+  length ypos = length xpos -> length ivar = length xpos -> length inmask = length xpos ->
+  exists ys, ts_xy t (Some xpos) false = Some (xpos, ys) /\ meq ys yfit.
+Proof. exact traceset_fit_eval_consistent. Qed.
+Print Assumptions C13_traceset_fit_eval_consistent.
+
+(* the default grid has one row per trace, floor(xmax-xmin+1) columns, entries xmin, xmin+1, ... *)
+Theorem C13_default_grid : forall t ig, xy_supported (ts_func t) = true ->
+  exists ys, ts_xy t None ig = Some (default_grid t, ys) /\
+    length (default_grid t) = length (ts_coeff t) /\
+    forall i row, nth_error (default_grid t) i = Some row ->
+      length row = Z.to_nat (Qfloor (ts_xmax t - ts_xmin t + 1)) /\
+      forall k v, nth_error row k = Some v -> v = inject_Z (Z.of_nat k) + ts_xmin t.
+Proof. exact default_grid_spec. Qed.
+Print Assumptions C13_default_grid.
+
+(* the BOSS jump fraction is a fraction *)
+Theorem C13_jump_fraction_clamped : forall q, 0 <= clamp01 q <= 1.
+Proof. exact clamp01_range. Qed.
+Print Assumptions C13_jump_fraction_clamped.
+
+(* ---------------------------------------------------------------- non-vacuity witnesses *)
+Example C13_example_fit_fixed :
+  func_fit Poly [0; 1; 2; 3] [1; 3; 7; 13] [1; 1; 0; 1] 3 [false; true; true] [1; 0; 0] None
+  = Some ([1; 1; 1], [1; 3; 7; 13]).
+Proof. vm_compute. reflexivity. Qed.
+Example C13_example_trace_jump :
+  match ts_fit Legendre 2 None None (Some (1, 2, 1 # 2)) [[0; 1; 2; 3]] [[1; 2; 4; 5]] [[1; 1; 1; 1]] [[true; true; true; true]] with
+  | Some (t, yfit) => match ts_xy t (Some [[0; 1; 2; 3]]) false with
+                      | Some (_, ys) => meq_bool (mred ys) (mred yfit) && negb (meq_bool (mred yfit) [[1; 2; 4; 5]])
+                      | None => false end
+  | None => false
+  end = true.
+Proof. vm_compute. reflexivity. Qed.
